@@ -89,7 +89,10 @@ def run(eng: Engine, ck: Check):
     if decs:
         gs = expanded_guards(eng, tk, decs[0])
         ok = any((not pol) and isinstance(e, ast.Call) and call_name(e) == 'refill' for e, pol, _ in gs) or \
-            any((not pol) and unparse(e) == 'is_empty' for e, pol, _ in eng.guards_at(tk, decs[0]))
+            any((not pol) and unparse(e) == 'is_empty' for e, pol, _ in eng.guards_at(tk, decs[0])) or \
+            any((not pol) and isinstance(e, ast.BoolOp) and isinstance(e.op, ast.And) and call_name(e.values[0]) == 'refill' and
+                all(isinstance(v_, ast.Call) and call_name(v_) in ('refill', 'is_empty') and unparse(v_.func.value) == 'self' for v_ in e.values)
+                for e, pol, _ in eng.guards_at(tk, decs[0]))      # not (refill() and is_empty()): the refill runs first, unconditionally; either way out is "not empty"
         ck.ob('R-C20-CAP', tk, decs[0], 'tokens are taken only after a refill that reported the bucket non-empty', ok, f'{[(unparse(e), p) for e, p, _ in gs]}',
               construct='take after non-empty refill')
         cdec = eng.cfg(tk)
